@@ -6,7 +6,7 @@ from __future__ import annotations
 from checks.sctp_common import base_problems, session_classes
 from vlib.runner import Check, Family, Outcome
 from vlib.sctpsim import Session
-from vlib.strategies import session_case
+from vlib.strategies import session_case, yielding
 
 
 def run_session(case: dict) -> Outcome:
@@ -38,7 +38,11 @@ CHECK = Check(
     families=[
         Family("sessions", run_session, lambda tier: session_case(tier, reliable_only=True, max_sends=40 if tier == "quick" else 60),
                quick=3000, thorough=100000, min_shard=20),
+        # the same space over a transport whose send suspends (a TURN relay binding or refreshing a channel)
+        Family("yielding-send", run_session,
+               lambda tier: yielding(session_case(tier, reliable_only=True, max_sends=40 if tier == "quick" else 60, loss_bias=True)),
+               quick=1500, thorough=40000, min_shard=20),
     ],
     floor=200,
-    assumptions=["datagram send does not yield (host-candidate path); DTLS is a pass-through fake"],
+    assumptions=["DTLS is a pass-through fake; a suspending send is modelled as a per-datagram pattern of 0 / one loop turn / 1 ms..1.2 s"],
 )
